@@ -6,7 +6,8 @@ of the model's OWN density (`levy_triplet.nu.__call__`), drift `levy_triplet.a`,
 
 Model lattice.  quick: the full 1-d lattice of DESIGN section 5 (HEM 2, Merton 2, VG 2, CGMY y in {-0.5,0,0.5,1,1.2,1.5} x
 3 (c,g,m)) plus the EXTRA points below (y = -1.5 finite activity, 0.2, 0.8, 1.8; g > m; heavy right tail m = 1.5; one-sided
-HEM p = 1; symmetric VG), pure diffusions, Black-Scholes; every exponential model with (r,d) in {(0.02,0),(0.05,0.02)}.
+HEM p = 1; symmetric VG; the ties y = -1, HEM sigma = 0, Merton mu_j = 0), pure diffusions, Black-Scholes; every exponential
+model with (r,d) in {(0.02,0),(0.05,0.02)}.
 thorough: in addition the full parameter products of `_product_lattice` (54 HEM, 36 Merton, 36 VG, 50 CGMY).
 
  sub-check   space                                                      oracle
@@ -60,15 +61,36 @@ thorough: in addition the full parameter products of `_product_lattice` (54 HEM,
                                                                         overwritten in place between two requests: every answer is
                                                                         x0 + process_drift * (its own) times
  coupling-   exponential models (direct; quick: first rate pair) x      the real CouplingMarkovChain driven as the multilevel engine
- levels      fixed 3-point grid (thorough: + uniform) x 2 levels        does (initialisation, path manager, next_level twice): after
+ levels      fixed 3-point grid x 4 levels (thorough: + uniform x 3)    does (initialisation, path manager, next_level 4 times): after
                                                                         every step every path manager built so far answers
                                                                         x0 + b_l t (fine) and x0 + b_{l-1} t (coarse) on 8 colliding
                                                                         grids, b_l = drift of a chain built afresh on a fresh grid
                                                                         refined l times (the object mart-chain judges)
 
-In addition: exponent - the exponent / log characteristic function called with an ARRAY of arguments (real, complex: what the
-COS pricer does) equals the scalar calls; repr - besides levy_exponent(1.3), cumulant1 and for exponential models
-log_characteristic_function(1,-i), omega, drift() and (BS/HEM/Merton) process_drift() are unchanged by every history.
+In addition: repr - besides levy_exponent(1.3), cumulant1 and for exponential models log_characteristic_function(1,-i), omega,
+drift() and (BS/HEM/Merton) process_drift() are unchanged by every history; the truncation handed over as list / array / numpy
+scalars / 0-d arrays / Python ints gives the drifts of the tuple of floats.  Ties: levy_exponent(0) = 0,
+log_characteristic_function(t, 0) = 1, t = 0 in mart-cf.
+
+Argument forms and purity (`_contract`; the property quantifies over "all arguments of the exponent" and over histories: the
+caller's own arrays are part of both).  EVERY public function of the anchored files that takes an array-like argument is called,
+for every model of the exponent / cumulant / path-history sub-checks (all construction routes), with its values in every form
+of `_arg_forms`: float64 / complex128 1-d array, (1,n), (n,1), one element, empty, strided view into a larger buffer of the
+caller, read-only array, 0-d array, numpy scalar, and for integral values int64 array / Python int / numpy int; one array of
+70 001 (quick: first direct spec of each family) / 262 145 (thorough: every direct spec) points. Entry points:
+  levy_exponent(.), levy_exponent(x=.), characteristic_function(0.5, .), levy_exponent_pure_jump(.) on the real, complex and
+  integral argument lists; characteristic_function(., 1.3), characteristic_function(t=., x=..) on arrays of maturities;
+  log_characteristic_function(1, ., log_spot=0), (t=2, x=.), (0.5, .) [default log-spot]; (., -1j), (t=., x=0.7, log_spot=0);
+  mean(.); cumulant1..6(.); LevyProcess / MarkovChainProcess.deterministic_path(.), (times=.) (also Python / numpy scalars).
+Oracle per form: (value) equals the scalar calls element by element (1e-10 of max(|value|, 1e-3): vector and scalar
+evaluations of the CGMY powers cancel differently) and has the shape of the argument; (pure) the caller's buffer holds the same
+bits after the call; (kept) a second call with the kept array is bit-identical to the first; (no alias) the first answer does
+not move when the caller overwrites its array afterwards; (no memo) the overwritten array is answered for its NEW values, bit
+for bit like a fresh array, and like the first call once the old values are written back. mart-cf repeats the kept-array
+history against the forward itself: ONE complex grid [-i, -i, 0] for the maturities 0.25, 1, 2, 1, 0.25 (positional and
+keywords), -i as numpy scalar / 0-d array.  The density nu(.) answers the same for float / int / numpy scalars / 0-d array and
+for +-0.0.  mart-direct, path-history (every request) and coupling-levels compare the caller's array of dates with the list it
+was built from after every call.
 
 Construction routes (the properties quantify over models, not over how they were built; key suffix `@route`).  Every spec of
 both tiers is followed by its "reinit" twin (mc.alphabets.with_reinit: a parameter object built with the DONOR values,
@@ -82,7 +104,18 @@ spec of each family (quick) / every spec of the base lattice and of EXTRA (thoro
                   parameter value is whatever the root finder returns - all oracles are parameter-agnostic; for a Levy spec the
                   `.levy_model` of the calibrated exponential model.
 Every sub-check that takes models takes all of these (path-history / coupling-levels / the representation pre-histories:
-direct models only - the route does not enter that code).
+direct models only - the route does not enter that code).  Judged by the `route` sub-check only (all public quantities against
+the directly constructed model; for exponential models of the first spec of each family / thorough: every spec, also the drift
+and deterministic path of a MarkovChainProcess on the fixed 5-point grid and of LevyProcess):
+  copy                                  copy.copy of a used model;
+  deepcopy- / dill-then-original-changed  a used model copied, then the ORIGINAL re-parametrised (every attribute of its parameter
+                                        object moved to the donor values + initialisation(), representation changed, spot / r / d
+                                        re-assigned) and used: the copy still is the model of the spec;
+  original-after-its-deepcopy-changed   the same with the COPY re-parametrised: the original still is the model of the spec;
+  args-int, args-numpy, args-0d         the constructor arguments (parameters, spot, r, d) as Python ints where integral, as
+                                        numpy float scalars, as 0-d arrays - for EVERY direct spec of the tier.
+path-history also asks a deepcopy, a copy.copy and a dill round trip of the process object (3 grids each, the original and the
+second object asked in between); coupling-levels runs 4 levels deep (thorough, uniform grid: 3).
 
 Not in the alphabet (the statement is silent or the quantity does not exist): arguments outside the strip of finite
 exponential moments (margin 0.4) and exponential models whose E[S_t] is infinite or ill-conditioned (right decay of the
@@ -95,7 +128,14 @@ directly); grids that are not well formed (origin at an end, non-finite points: 
 is a legitimate model as long as exponent, triplet, cumulants and simulation drift agree on it); calibrations without
 solution (CGMY y = -0.5: counted `route_outside_alphabet`); routes for PureDiffusiveModel other than deepcopy / dill (it has no
 parameter object); mutation of a model's attributes (spot, r, d, parameters) AFTER the model was constructed (the library
-itself rebuilds the model); in-place modification of an array RETURNED by deterministic_path; scalar / list / 2-d `times`.
+itself rebuilds the model); in-place modification of an array RETURNED by deterministic_path.
+Argument forms not in the alphabet: lists / tuples of arguments or dates (the unchanged tree raises TypeError); float32 /
+complex64 arrays (answered in reduced precision: the statement promises no accuracy there); arrays of points for the density
+nu (HEM / VG / CGMY compare `x < 0` and raise); numpy INTEGER scalars as constructor arguments and CGMY with an integral negative
+y as Python ints (np.power(20, -1) raises "Integers to negative integer powers": counted `route_outside_alphabet`); arrays of
+maturities together with arrays of arguments (broadcast grids); a list / array truncation overwritten by the caller after
+truncate_levy_measure (TruncatedLevyMeasure keeps the caller's object; the declared type is a tuple and the library only hands
+tuples).
 
 Quadrature.  QUADPACK on pieces split at 0, +-1 and the truncation points; on pieces touching the origin the substitution
 x = +-t^8 is applied first, because with the raw integrand |x|^(-0.8) (CGMY y = 1.8) QUADPACK's error estimate was found
@@ -126,7 +166,10 @@ RULE = (
     "complete product of the model lattice (every spec also through its construction routes: re-initialised parameter objects, "
     "copies, calibration helper) with the argument list / time list / grid menu of each sub-check, plus BFS to closure over "
     "histories of set_representation on fresh models, every ordered pair of the time-grid menu as consecutive requests on one "
-    "process object, and the initialisation / next_level histories of the chain and of its coupling; a case is non-trivial "
+    "process object, the initialisation / next_level histories of the chain and of its coupling, and every array-taking public "
+    "function called with each form of its argument (1-d / (1,n) / (n,1) / one / empty / strided view / read-only / 0-d / numpy "
+    "and Python scalars / integers / one array beyond 2^16 points) followed by the history call - call again - caller overwrites "
+    "its array - call - write back - call; a case is non-trivial "
     "when at least one library value was compared with a reference (quadrature value whose own error estimate was below the "
     "tolerance, or x0 + drift * t); distinct = distinct case dict"
 )
@@ -159,10 +202,12 @@ EXTRA = {
         {"sigma": 0.3, "p": 0.6, "eta1": 3.0, "eta2": 2.0, "intensity": 1.0},
         {"sigma": 0.1, "p": 1.0, "eta1": 20.0, "eta2": 25.0, "intensity": 3.0},
         {"sigma": 0.05, "p": 0.5, "eta1": 50.0, "eta2": 50.0, "intensity": 10.0},
+        {"sigma": 0.0, "p": 0.3, "eta1": 10.0, "eta2": 40.0, "intensity": 5.0},   # tie: no diffusion
     ],
     "merton": [
         {"sigma": 0.2, "sigma_j": 0.3, "mu_j": 0.1, "intensity": 0.5},
         {"sigma": 0.05, "sigma_j": 0.02, "mu_j": 0.03, "intensity": 10.0},
+        {"sigma": 0.1, "sigma_j": 0.1, "mu_j": 0.0, "intensity": 1.0},            # tie: centred jumps
     ],
     "vg": [
         {"sigma": 0.12, "nu": 0.5, "theta": 0.0},
@@ -171,6 +216,7 @@ EXTRA = {
     "cgmy": [
         {"c": 1.0, "g": 15.0, "m": 20.0, "y": -1.5},
         {"c": 0.1, "g": 5.0, "m": 7.0, "y": -1.5},
+        {"c": 1.0, "g": 15.0, "m": 20.0, "y": -1.0},                               # tie: y = -1 (finite / infinite activity flag)
         {"c": 1.0, "g": 15.0, "m": 20.0, "y": 0.2},
         {"c": 1.0, "g": 15.0, "m": 20.0, "y": 0.8},
         {"c": 0.1, "g": 5.0, "m": 7.0, "y": 1.8},
@@ -208,6 +254,9 @@ def _product_lattice():
 
 
 ROUTES_RICH = ("deepcopy", "dill", "after-donor", "calibration")
+# routes judged by the `route` sub-check only (every public quantity against the directly constructed model)
+ROUTES_COPIES = ("copy", "deepcopy-then-original-changed", "dill-then-original-changed", "original-after-its-deepcopy-changed")
+ROUTES_ARGS = ("args-int", "args-numpy", "args-0d")  # the constructor arguments in their other legal forms
 CALIBRATION = {"maturity": 1.0, "bs_sigma": 0.25}  # the library default bs_sigma = 0.10 is below the jump volatility of HEM
 
 
@@ -315,6 +364,38 @@ def _make(spec):
         m = _make_direct(direct)
         _touch(m)
         return copy.deepcopy(m)
+    if via == "copy":
+        m = _make_direct(direct)
+        _touch(m)
+        return copy.copy(m)
+    if via in ("deepcopy-then-original-changed", "dill-then-original-changed", "original-after-its-deepcopy-changed"):
+        # the copy is independent of the original: whichever of the two is re-parametrised afterwards, the other one still is
+        # the model of the spec
+        m = _make_direct(direct)
+        _touch(m)
+        if via.startswith("dill"):
+            import dill
+
+            c = dill.loads(dill.dumps(m))
+        else:
+            c = copy.deepcopy(m)
+        keep, change = (m, c) if via.startswith("original") else (c, m)
+        _reparametrise(change, fam)
+        _touch(change)
+        return keep
+    if via in ROUTES_ARGS:
+        conv = {"args-int": lambda v: int(v) if float(v).is_integer() else v, "args-numpy": np.float64,
+                "args-0d": lambda v: np.array(float(v))}[via]
+        d = dict(direct, params={k: conv(v) for k, v in direct["params"].items()})
+        for k in ("spot", "r", "d"):
+            if k in d:
+                d[k] = conv(d[k])
+        try:
+            return _make_direct(d)
+        except (TypeError, ValueError) as err:
+            # a form the library rejects loudly is outside the alphabet (CGMY with an integral negative y handed over as
+            # Python ints: np.power(20, -1) "Integers to negative integer powers are not allowed")
+            raise _Outside(str(err)) from err
     if via == "dill":  # what every pool chunk of the Monte-Carlo engines receives
         import dill
 
@@ -363,6 +444,29 @@ def _make(spec):
         params.initialisation()
         return build(params)
     raise ValueError(via)
+
+
+def _reparametrise(model, fam):
+    """Change everything a caller can change on a model object it owns: the attributes of its parameter object (donor values,
+    initialisation()), the representation of its triplet, and spot / rates of an exponential model."""
+    from rpylib.model.levymodel.levymodel import LevyRepresentation
+
+    p = _params(model)
+    if p is not None and fam in A.DONOR_PARAMS:
+        for n, v in A.DONOR_PARAMS[fam].items():
+            if hasattr(p, n):
+                setattr(p, n, v)
+        if hasattr(p, "initialisation"):
+            p.initialisation()
+    tr = model.levy_triplet
+    now = getattr(tr.representation, "name", str(tr.representation))
+    tr.set_representation(LevyRepresentation["ONEONE" if now != "ONEONE" else "CENTER"])
+    for n, v in (("spot", 80.0), ("r", 0.04), ("d", 0.015)):
+        if hasattr(model, n):
+            try:
+                setattr(model, n, v)
+            except Exception:
+                pass
 
 
 def _build(sh, spec):
@@ -607,8 +711,17 @@ def cases(tier):
     out = []
     levy = _specs(tier, exp=False, families=("pdiff", "hem", "merton", "vg", "cgmy"))
     expo = _specs(tier, exp=True, families=("bs", "hem", "merton", "vg", "cgmy"))
+    big = set()  # one array beyond 2^16 points for the first directly constructed spec of each family (quick) / every one (thorough)
+
+    def large(s):
+        k = (s["family"], bool(s.get("exp")))
+        if s.get("via") or (tier == "quick" and k in big):
+            return {}
+        big.add(k)
+        return {"large": tier}
+
     for s in levy:
-        out.append({"sub": "exponent", "model": s})
+        out.append({"sub": "exponent", "model": s, **large(s)})
     for s in levy:
         out.append({"sub": "cumulant", "model": s})
     truncs = [None, [-0.5, 0.7], [-2.0, 1.5]]
@@ -628,7 +741,7 @@ def cases(tier):
             for pre in CHAIN_PRE_REPS:
                 out.append({"sub": "mart-direct", "model": s, "pre_reps": pre})
     for s in expo:
-        out.append({"sub": "exponent", "model": s})
+        out.append({"sub": "exponent", "model": s, **large(s)})
     for s in expo:
         if s["family"] == "bs":
             continue
@@ -642,21 +755,37 @@ def cases(tier):
     for s in levy + expo:
         if s.get("via") and s["via"] != "calibration":
             out.append({"sub": "route", "model": s})
+    # ... the routes judged only there: copies one side of which is re-parametrised afterwards (first spec of each family in
+    # quick), constructor arguments in their other legal forms (every direct spec)
+    fams = set()
+    for s in levy + expo:
+        if s.get("via"):
+            continue
+        first = (s["family"], bool(s.get("exp"))) not in fams
+        fams.add((s["family"], bool(s.get("exp"))))
+        if first or tier == "thorough":
+            for v in ROUTES_COPIES:
+                out.append({"sub": "route", "model": dict(s, via=v), "chain": bool(s.get("exp")) and s["family"] != "bs"})
+        for v in ROUTES_ARGS:
+            out.append({"sub": "route", "model": dict(s, via=v),
+                        "chain": (first or tier == "thorough") and bool(s.get("exp")) and s["family"] != "bs"})
     # the drifts kept by the multilevel coupling over next_level histories
     for s in expo:
         if s.get("via") or s["family"] == "bs" or (tier == "quick" and (s["r"], s["d"]) != A.RATES[0]):
             continue
-        out.append({"sub": "coupling-levels", "model": s, "grid": {"kind": "fixed", "h": 0.2, "n": 3}, "depth": 2})
+        out.append({"sub": "coupling-levels", "model": s, "grid": {"kind": "fixed", "h": 0.2, "n": 3}, "depth": 4})
         if tier == "thorough":
-            out.append({"sub": "coupling-levels", "model": s, "grid": {"kind": "uniform", "h": 0.2, "p": 0.99999}, "depth": 2})
+            out.append({"sub": "coupling-levels", "model": s, "grid": {"kind": "uniform", "h": 0.2, "p": 0.99999}, "depth": 3})
     # histories of deterministic_path requests on ONE process object (directly constructed models: the construction route
     # does not enter Process.deterministic_path)
     for s in levy + expo:
         if s.get("via"):
             continue
-        out.append({"sub": "path-history", "model": s, "proc": "levy"})
+        lg = {"large": tier} if tier == "thorough" or (s["family"], bool(s.get("exp")), "path") not in big else {}
+        big.add((s["family"], bool(s.get("exp")), "path"))
+        out.append({"sub": "path-history", "model": s, "proc": "levy", **lg})
         if s.get("exp") and s["family"] != "bs":
-            out.append({"sub": "path-history", "model": s, "proc": "chain", "grid": {"kind": "fixed", "h": 0.1, "n": 5}})
+            out.append({"sub": "path-history", "model": s, "proc": "chain", "grid": {"kind": "fixed", "h": 0.1, "n": 5}, **lg})
     return out
 
 
@@ -727,7 +856,36 @@ def _sub_exponent(sh, case):
                 if not _cclose(cf, cref, rtol * max(1.0, t * abs(ref)) * 4):
                     sh.violation(f"C10:exponent:{type(model).__name__}.characteristic_function:not-exp-of-t-times-exponent:{kl}",
                                  f"{spec}: characteristic_function({t}, {_ulabel(u)}) = {cf}, exp(t psi) = {cref}", None)
-    _array_arguments(sh, spec, model, comp, kl, dec, model.levy_exponent)
+    # u = 0 (tie): psi(0) = 0 whatever the triplet
+    try:
+        z0 = complex(model.levy_exponent(0.0))
+        sh.count("evaluations")
+        if not abs(z0) <= ATOL:
+            sh.violation(f"C10:exponent:{comp}:not-zero-at-zero:{kl}", f"{A.model_label(spec)}: levy_exponent(0.0) = {z0}", None)
+    except Exception as e:
+        sh.violation(f"C10:exponent:{comp}:raises-{type(e).__name__}:{kl}:u=0", f"levy_exponent(0.0) raised {e!r}", None)
+    # the forms in which the arguments can be handed over, and what happens to the caller's arrays
+    where = A.model_label(spec)
+    cname = type(model).__name__
+    large = LARGE_N[case.get("large")] if case.get("large") else 0
+    us_c = [u for u in _u_list() if _admissible(u, dec)]
+    us_r = [u for u in us_c if u.imag == 0] + [0j]
+    us_i = [complex(v) for v in U_INTS]
+    for kind, vals in (("real", us_r), ("complex", us_c), ("int", us_i)):
+        _contract(sh, "exponent", comp, kl, "levy_exponent(.)", model.levy_exponent, vals, kind, where, large=large)
+        _contract(sh, "exponent", cname + ".characteristic_function", kl, "characteristic_function(0.5, .)",
+                  lambda x: model.characteristic_function(0.5, x), vals, kind, where,
+                  large=large if kind == "complex" else 0)
+    _contract(sh, "exponent", comp, kl + ":keyword", "levy_exponent(x=.)", lambda x: model.levy_exponent(x=x), us_c, "complex", where)
+    _contract(sh, "exponent", cname + ".levy_exponent_pure_jump", kl, "levy_exponent_pure_jump(.)",
+              model.levy_exponent_pure_jump, [1j * u for u in us_c], "complex", where, strict_shape=False)
+    x_kw = 0.7 - 0.5j if _admissible(0.7 - 0.5j, dec) else 0.7
+    for kind, vals in (("real", T_VALS), ("int", T_INTS)):
+        _contract(sh, "exponent", cname + ".characteristic_function", kl + ":times", "characteristic_function(., 1.3)",
+                  lambda t: model.characteristic_function(t, 1.3), [complex(v) for v in vals], kind, where)
+        _contract(sh, "exponent", cname + ".characteristic_function", kl + ":times", f"characteristic_function(t=., x={_ulabel(complex(x_kw))})",
+                  lambda t: model.characteristic_function(t=t, x=x_kw), [complex(v) for v in vals], kind, where)
+    _density_forms(sh, spec, model, kl)
     if rows:
         sh.nontriv()
         sh.outcome([(r["u"], round(r["lib"].real, 9), round(r["lib"].imag, 9)) for r in rows])
@@ -748,31 +906,209 @@ def _sub_exponent(sh, case):
         )
 
 
-def _array_arguments(sh, spec, model, comp, kl, dec, fn):
-    """The exponent / characteristic function called with an ARRAY of arguments (what the COS pricer, hence the calibration,
-    does) must agree element by element with the scalar calls judged above. fn(arg) -> library value(s)."""
-    for label, us in (("real", [u for u in _u_list() if u.imag == 0]), ("complex", _u_list())):
-        us = [u for u in us if _admissible(u, dec)]
-        if len(us) < 2:
-            continue
-        arr = np.array([u.real for u in us]) if label == "real" else np.array(us, dtype=complex)
+LARGE_N = {"quick": 70_001, "thorough": 262_145}  # beyond 2^16 states / beyond the 2^18 points of the largest Fourier grid
+T_VALS = [0.5, 2.0, 1.0, 0.0, 0.25]               # maturities handed over as an array (0 = the tie t = 0)
+T_INTS = [1.0, 2.0, 0.0]
+U_INTS = [4.0, -4.0, 1.0, 0.0, -2.0]
+
+
+def _same(x, y):
+    """Bit-for-bit equality of two library answers (the same computation done twice); nan equals nan."""
+    x, y = np.asarray(x), np.asarray(y)
+    return x.shape == y.shape and bool(np.array_equal(x, y, equal_nan=True))
+
+
+def _fill(arg, values):
+    """Overwrite the caller's array in place with other values (real parts for a real or integer array)."""
+    v = np.array([complex(x) for x in values])
+    arg[...] = (v if arg.dtype.kind == "c" else v.real).astype(arg.dtype).reshape(arg.shape)
+
+
+def _arg_forms(vals, kind):
+    """The legal forms in which the values `vals` (Python floats / complex) can be handed over: (name, argument object, the
+    values it holds, the whole buffer the caller owns). Lists / tuples and reduced-precision dtypes are not in the alphabet
+    (the unchanged tree rejects the former; the statement promises no accuracy for the latter)."""
+    dt = float if kind != "complex" else complex
+    vals = [complex(v) if dt is complex else complex(v).real for v in vals]
+    base = np.array(vals, dtype=dt)
+    n = len(vals)
+    out = [("array", base.copy()), ("array-1xn", base.reshape(1, -1).copy()), ("array-nx1", base.reshape(-1, 1).copy()),
+           ("array-one", base[:1].copy()), ("array-empty", base[:0].copy())]
+    big = np.empty(2 * n, dtype=dt)
+    big[0::2] = base
+    big[1::2] = 0.123                      # the caller's other data, interleaved with the arguments
+    out.append(("array-strided-view", big[0::2]))
+    ro = base.copy()
+    ro.setflags(write=False)
+    out.append(("array-read-only", ro))
+    out.append(("array-0-d", np.array(vals[0], dtype=dt)))
+    out.append(("numpy-scalar", (np.float64 if dt is float else np.complex128)(vals[0])))
+    if kind == "int":
+        out.append(("array-of-integers", base.astype(np.int64)))
+        out.append(("python-int", int(vals[0])))
+        out.append(("numpy-int", np.int64(int(vals[0]))))
+    res = []
+    for name, arg in out:
+        held = [dt(v) for v in np.asarray(arg).reshape(-1).tolist()]
+        owner = big if name == "array-strided-view" else arg
+        res.append((name, arg, held, owner))
+    return res
+
+
+def _contract(sh, sub, comp, kl, label, fn, vals, kind, where, strict_shape=True, large=0):
+    """Contract of a public function `fn` of ONE array-like argument, on the values `vals` (kind: "real" | "complex" | "int" =
+    real and integral), for every form of `_arg_forms`:
+      value    fn(form) agrees element by element with the scalar calls fn(v) (judged elsewhere against the reference) and has
+               the shape of its argument;
+      pure     the caller's array holds the same bits after the call (also the part of the buffer the view does not cover);
+      kept     a second call with the kept array answers bit for bit like the first;
+      no alias the answer of the first call does not move when the caller overwrites its array afterwards;
+      no memo  the call with the overwritten array answers for the NEW values, and bit for bit like a fresh array of them;
+               with the old values written back, bit for bit like the first call.
+    large > 0: one more array of that many points (the values repeated with a ramp added to the real part), compared with the
+    evaluation in chunks of 1000 and with scalar calls at 5 positions."""
+    seen = set()
+
+    def report(fc, form, text, detail=None):
+        key = f"C10:{sub}:{comp}:{fc}:{kl}:{form}"
+        if key not in seen:
+            seen.add(key)
+            sh.violation(key, f"{where}: {label} called with the {kind} values {[_ulabel(complex(v)) for v in vals][:12]} as "
+                              f"'{form}': {text}", detail)
+
+    def scal(v):
+        return complex(fn(v.real if v.imag == 0 else v))
+
+    def agrees(got, held):
+        got = np.asarray(got)
+        if not held:
+            return got.size == 0 or (not strict_shape and got.shape == ())
         try:
-            vec = np.asarray(fn(arr), dtype=complex)
-            sca = np.array([complex(fn(u.real if u.imag == 0 else u)) for u in us])
+            ref = np.array([scal(complex(v)) for v in held])
         except Exception as e:
-            sh.violation(f"C10:exponent:{comp}:raises-{type(e).__name__}:{kl}:array-argument",
-                         f"{A.model_label(spec)}: called with the {label} array {arr.tolist()} raised {e!r}", None)
+            report(f"raises-{type(e).__name__}", "scalar", f"the scalar call raised {e!r}")
+            return True
+        flat = np.broadcast_to(got, (len(held),)) if got.shape == () and not strict_shape else got.reshape(-1)
+        return flat.shape == ref.shape and all(_cclose(g, r, 1e-10, max(abs(r), 1e-3)) for g, r in zip(flat, ref))
+
+    if len(vals) < 2:
+        return
+    rot = list(vals[1:]) + list(vals[:1])
+    for form, arg, held, owner in _arg_forms(vals, kind):
+        is_arr = isinstance(arg, np.ndarray)
+        before = np.array(owner, copy=True) if is_arr else owner
+        try:
+            r1 = fn(arg)
+            first = copy.deepcopy(r1)
+            untouched = (not is_arr) or (_same(owner, before) and owner.dtype == before.dtype)
+            r2 = fn(arg) if untouched else None
+        except Exception as e:
+            report(f"raises-{type(e).__name__}", form, f"raised {e!r}")
             continue
         sh.count("evaluations")
-        sh.cls("argument:array-" + label)
-        ok = vec.shape == arr.shape and all(_cclose(v, x, 1e-10, max(abs(x), 1e-3)) for v, x in zip(vec.reshape(-1), sca))
-        if not ok:
-            sh.violation(
-                f"C10:exponent:{comp}:array-argument-differs-from-scalar-arguments:{kl}",
-                f"{A.model_label(spec)}: called with the {label} array {[_ulabel(u) for u in us]} gives {vec.tolist()}, "
-                f"argument by argument {sca.tolist()}",
-                {"arguments": [_ulabel(u) for u in us], "array_call": vec.tolist(), "scalar_calls": sca.tolist()},
-            )
+        sh.cls(f"form:{kind}:{form}")
+        if not untouched:
+            report("modifies-its-argument", form,
+                   f"the caller's array held {np.asarray(before).reshape(-1).tolist()[:8]} before the call and holds "
+                   f"{np.asarray(owner).reshape(-1).tolist()[:8]} after it: a caller that keeps its grid of arguments for a second "
+                   "call (another maturity) no longer evaluates at its arguments",
+                   {"before": np.asarray(before).reshape(-1).tolist()[:12], "after": np.asarray(owner).reshape(-1).tolist()[:12]})
+            continue
+        if strict_shape and np.shape(r1) != np.shape(arg):
+            report("array-argument-differs-from-scalar-arguments", form, f"answer of shape {np.shape(r1)} for an argument of shape "
+                                                                         f"{np.shape(arg)}")
+            continue
+        if not agrees(r1, held):
+            report("array-argument-differs-from-scalar-arguments", form,
+                   f"gives {np.asarray(r1).reshape(-1).tolist()[:8]}, argument by argument "
+                   f"{[scal(complex(v)) for v in held][:8]}",
+                   {"form_call": np.asarray(r1).reshape(-1).tolist()[:12], "scalar_calls": [scal(complex(v)) for v in held][:12]})
+            continue
+        if not _same(r2, first):
+            report("second-call-on-the-kept-argument-differs", form,
+                   f"first call {np.asarray(first).reshape(-1).tolist()[:6]}, second call with the same (unchanged) object "
+                   f"{np.asarray(r2).reshape(-1).tolist()[:6]}")
+            continue
+        if not (is_arr and arg.flags.writeable and arg.size):
+            continue
+        # the caller re-uses its buffer for other arguments
+        new = rot[:arg.size]
+        try:
+            _fill(arg, new)
+            if not _same(r1, first):
+                report("result-aliases-the-callers-array", form,
+                       "the answer of the first call changed when the caller overwrote its argument array afterwards")
+                continue
+            r3 = fn(arg)
+            fresh = fn(np.array(arg, copy=True))
+            _fill(arg, held)
+            r4 = fn(arg)
+        except Exception as e:
+            report(f"raises-{type(e).__name__}", form, f"after the caller overwrote its array: raised {e!r}")
+            continue
+        sh.count("evaluations")
+        if not (_same(r3, fresh) and agrees(r3, [complex(v) for v in new]) and _same(r4, first)):
+            report("answer-for-an-overwritten-array-is-stale", form,
+                   f"array overwritten in place with {[_ulabel(complex(v)) for v in new][:8]}: answer "
+                   f"{np.asarray(r3).reshape(-1).tolist()[:6]}, a fresh array of the same values gives "
+                   f"{np.asarray(fresh).reshape(-1).tolist()[:6]}; old values written back: {np.asarray(r4).reshape(-1).tolist()[:6]}, "
+                   f"first call {np.asarray(first).reshape(-1).tolist()[:6]}")
+    if large:
+        dt = float if kind != "complex" else complex
+        reps = -(-large // len(vals))
+        arr = np.tile(np.array([complex(v) if dt is complex else complex(v).real for v in vals], dtype=dt), reps)[:large]
+        arr = arr + (np.arange(large) % 1013) * (1.0 / 4096.0)  # exact binary ramp added to the real part
+        keep = arr.copy()
+        try:
+            r1 = np.asarray(fn(arr))
+            chunks = np.concatenate([np.asarray(fn(arr[k:k + 1000].copy())).reshape(-1) for k in range(0, large, 1000)])
+            pos = [0, 1, large // 2, large - 2, large - 1]
+            sca = [scal(complex(keep[k])) for k in pos]
+        except Exception as e:
+            report(f"raises-{type(e).__name__}", "array-large", f"{large} points: raised {e!r}")
+            return
+        sh.count("evaluations")
+        sh.cls(f"form:{kind}:array-large")
+        if not _same(arr, keep):
+            report("modifies-its-argument", "array-large", f"{large} points: the caller's array was changed by the call")
+        elif r1.shape != arr.shape or not all(_cclose(r1[k], s, 1e-10, max(abs(s), 1e-3)) for k, s in zip(pos, sca)) \
+                or not np.allclose(r1, chunks, rtol=1e-10, atol=1e-13, equal_nan=True):
+            worst = int(np.argmax(np.abs(r1.reshape(-1)[:chunks.size] - chunks))) if r1.size == chunks.size else -1
+            report("array-argument-differs-from-scalar-arguments", "array-large",
+                   f"{large} points: differs from the evaluation in chunks of 1000 / from scalar calls (largest difference at "
+                   f"index {worst})")
+
+
+def _density_forms(sh, spec, model, kl):
+    """The density of the Levy measure (the oracle of every sub-check reads it at Python floats) answers the same for the other
+    scalar forms of the same point: Python int, numpy float / int scalar, 0-d array; and nu(-0.0) = nu(0.0). Arrays of points
+    are not in the alphabet (the unchanged densities of HEM / VG / CGMY compare `x < 0` and reject them)."""
+    nu = model.levy_triplet.nu
+    comp = type(nu).__name__.lstrip("_") + ".__call__"
+    for x in (1.0, -1.0, 2.0, -3.0):
+        try:
+            ref = float(nu(x))
+        except Exception:
+            return
+        for form, arg in (("python-int", int(x)), ("numpy-scalar", np.float64(x)), ("numpy-int", np.int64(x)),
+                          ("array-0-d", np.array(x))):
+            try:
+                got = float(nu(arg))
+            except Exception as e:
+                sh.violation(f"C10:exponent:{comp}:raises-{type(e).__name__}:{kl}:{form}", f"nu({arg!r}) raised {e!r}", None)
+                continue
+            sh.count("evaluations")
+            if not core.close(got, ref, rtol=1e-13, atol=0.0):
+                sh.violation(f"C10:exponent:{comp}:argument-form-changes-the-density:{kl}:{form}",
+                             f"{A.model_label(spec)}: nu({arg!r}) = {got!r} as {form}, nu({x!r}) = {ref!r}", None)
+    try:
+        zp, zm = float(nu(0.0)), float(nu(-0.0))
+        sh.count("evaluations")
+        if not (zp == zm or (math.isnan(zp) and math.isnan(zm))):
+            sh.violation(f"C10:exponent:{comp}:argument-form-changes-the-density:{kl}:minus-zero",
+                         f"{A.model_label(spec)}: nu(0.0) = {zp!r}, nu(-0.0) = {zm!r}", None)
+    except Exception:
+        pass
 
 
 def _exponent_exp(sh, case):
@@ -834,7 +1170,37 @@ def _exponent_exp(sh, case):
                     f"quadrature {complex(ref)}",
                     {"declared": rep, "a": a, "sigma": sigma, "omega_lib": complex(model.omega).real, "omega_ref": w_ref},
                 )
-    _array_arguments(sh, spec, model, comp, kl, dec, lambda arg: model.log_characteristic_function(1.0, arg, log_spot=0.0))
+    # u = 0 (tie): E[exp(i 0 log S_t)] = 1
+    try:
+        one = complex(model.log_characteristic_function(1.0, 0.0))
+        sh.count("evaluations")
+        if not abs(one - 1.0) <= 1e-12:
+            sh.violation(f"C10:exponent:{comp}:not-one-at-zero:{kl}", f"{A.model_label(spec)}: log_characteristic_function(1, 0.0) = {one}", None)
+    except Exception as e:
+        sh.violation(f"C10:exponent:{comp}:raises-{type(e).__name__}:{kl}:u=0", f"log_characteristic_function(1, 0.0) raised {e!r}", None)
+    # the forms in which the arguments can be handed over (what the COS / FFT pricers and the calibration do: real grids,
+    # complex damped grids, keywords), and what happens to the caller's arrays
+    where = A.model_label(spec)
+    cname = type(model).__name__
+    large = LARGE_N[case.get("large")] if case.get("large") else 0
+    us_c = [u for u in _u_list() if _admissible(u, dec)]
+    us_r = [u for u in us_c if u.imag == 0] + [0j]
+    us_i = [complex(v) for v in U_INTS]
+    lcf = model.log_characteristic_function
+    for kind, vals in (("real", us_r), ("complex", us_c), ("int", us_i)):
+        _contract(sh, "exponent", comp, kl, "log_characteristic_function(1.0, ., log_spot=0.0)",
+                  lambda x: lcf(1.0, x, log_spot=0.0), vals, kind, where, large=large)
+        _contract(sh, "exponent", comp, kl + ":keywords", "log_characteristic_function(t=2.0, x=.)",
+                  lambda x: lcf(t=2.0, x=x), vals, kind, where, large=large if kind == "complex" else 0)
+        _contract(sh, "exponent", comp, kl + ":default-log-spot", "log_characteristic_function(0.5, .)",
+                  lambda x: lcf(0.5, x), vals, kind, where)
+    for kind, vals in (("real", T_VALS), ("int", T_INTS)):
+        tv = [complex(v) for v in vals]
+        _contract(sh, "exponent", comp, kl + ":times", "log_characteristic_function(., -1j)", lambda t: lcf(t, -1j), tv, kind, where)
+        _contract(sh, "exponent", comp, kl + ":times", "log_characteristic_function(t=., x=0.7, log_spot=0.0)",
+                  lambda t: lcf(t=t, x=0.7, log_spot=0.0), tv, kind, where)
+        if hasattr(model, "mean"):
+            _contract(sh, "exponent", cname + ".mean", kl + ":times", "mean(.)", model.mean, tv, kind, where)
     if rows:
         sh.nontriv()
         sh.outcome([(x["u"], x["t"], round(x["lib"].real, 9), round(x["lib"].imag, 9)) for x in rows])
@@ -896,6 +1262,19 @@ def _sub_cumulant(sh, case):
                     f"{spec}: cumulant{n}({t}) = {got!r}, from the triplet (a={a}, sigma={sigma}, {rep}) and the density: {ref!r}",
                     {"n": n, "t": t, "lib": got, "ref": ref, "quad_err": err, "declared": rep},
                 )
+    # the maturity handed over in its other forms (int, numpy scalars, arrays of maturities), and the caller's array left alone
+    for n in range(1, 7):
+        fn = getattr(model.cumulant, f"cumulant{n}", None)
+        try:
+            fn(1.0)
+        except NotImplementedError:
+            continue
+        except Exception:
+            continue  # reported above
+        for kind, vals in (("real", T_VALS), ("int", T_INTS)):
+            # (a cumulant that is identically zero may answer a scalar 0.0 for an array of maturities: broadcastable, accepted)
+            _contract(sh, "cumulant", f"{comp}.cumulant{n}", kl, f"cumulant{n}(.)", fn, [complex(v) for v in vals], kind,
+                      A.model_label(spec), strict_shape=False)
     # k1, k2 as derivatives of the library's own exponent at zero (Richardson-extrapolated central differences)
     try:
         def psi(x):
@@ -1087,6 +1466,38 @@ def _sub_repr(sh, case):
                                  f"{spec}: {name} was {was}, is {is_} after {hist}", {"history": hist})
         return None
 
+    if trunc is not None:
+        # the truncation handed over in its other forms (the chain hands a tuple of numpy floats; list / array / Python ints
+        # where integral): the same drifts along one history through every admissible representation. (The truncated measure
+        # keeps the caller's object: a caller overwriting a list / array afterwards is outside the declared tuple type.)
+        def drifts(tr_arg):
+            m = _make(spec)
+            m.truncate_levy_measure(tr_arg)
+            out = []
+            for ev in admissible + admissible[:1]:
+                m.levy_triplet.set_representation(LevyRepresentation[ev])
+                out.append(float(m.levy_triplet.a))
+            return out
+
+        lo_, hi_ = float(trunc[0]), float(trunc[1])
+        forms = [("list", [lo_, hi_]), ("array", np.array([lo_, hi_])), ("numpy-scalars", (np.float64(lo_), np.float64(hi_))),
+                 ("array-of-0-d", (np.array(lo_), np.array(hi_)))]
+        if lo_.is_integer() and hi_.is_integer():
+            forms.append(("python-ints", (int(lo_), int(hi_))))
+        try:
+            want = drifts((lo_, hi_))
+            for form, tr_arg in forms:
+                keep = copy.deepcopy(tr_arg)
+                got = drifts(tr_arg)
+                sh.count("evaluations")
+                sh.cls("truncation-form:" + form)
+                same_arg = np.array_equal(np.asarray(tr_arg, dtype=float), np.asarray(keep, dtype=float))
+                if not same_arg or not all(core.close(g, w, rtol=1e-13, atol=1e-15, scale=x_scale) for g, w in zip(got, want)):
+                    sh.violation(f"C10:representation:LevyModel.truncate_levy_measure:argument-form-changes-the-drifts:{kl}:{form}",
+                                 f"{spec}: truncation {trunc} handed over as {form}: drifts {got} along {admissible + admissible[:1]}, "
+                                 f"as a tuple of floats {want}" + ("" if same_arg else f"; the caller's object now holds {tr_arg!r}"), None)
+        except Exception as e:
+            sh.violation(f"C10:representation:LevyModel.truncate_levy_measure:raises-{type(e).__name__}:{kl}", repr(e)[:300], None)
     states, transitions, maxd = core.bfs(sh, build, menu, canon, invariant, depth=depth)
     sh.traces += transitions
     for rep in REPS:
@@ -1121,7 +1532,7 @@ def _sub_mart_cf(sh, case):
     _common_classes(sh, spec, model, rep, fv)
     r, d, s0 = float(model.r), float(model.d), float(model.spot)
     obs = []
-    for t in (0.25, 1.0, 2.0):
+    for t in (0.25, 1.0, 2.0, 0.0):  # 0.0 = the tie: E[S_0] = S0
         got = complex(model.log_characteristic_function(t, -1j))
         fwd = s0 * math.exp((r - d) * t)
         sh.count("evaluations")
@@ -1141,6 +1552,31 @@ def _sub_mart_cf(sh, case):
             if not _cclose(mean, math.exp((r - d) * t), 1e-11):
                 sh.violation(f"C10:martingale-cf:{cname}.mean:not-the-forward-over-spot:{kl}",
                              f"{A.model_label(spec)}: mean({t}) = {mean}, exp((r-d)t) = {math.exp((r - d) * t)!r}", None)
+    # -i handed over in its other forms; ONE complex grid kept by the caller for all the maturities (ascending, then descending)
+    grid = np.array([-1j, -1j, 0j])
+    for form, arg in (("numpy-scalar", np.complex128(-1j)), ("array-0-d", np.array(-1j)), ("array-kept", grid), ("keywords-array-kept", grid)):
+        for t in (0.25, 1.0, 2.0, 1.0, 0.25):
+            fwd = s0 * math.exp((r - d) * t)
+            try:
+                if form == "keywords-array-kept":
+                    got = model.log_characteristic_function(t=t, x=arg)
+                else:
+                    got = model.log_characteristic_function(t, arg)
+                vals = [complex(v) for v in np.asarray(got).reshape(-1)]
+            except Exception as e:
+                sh.violation(f"C10:martingale-cf:{cname}.log_characteristic_function:raises-{type(e).__name__}:{kl}:{form}",
+                             f"log_characteristic_function({t}, {arg!r}) raised {e!r}", None)
+                break
+            sh.count("evaluations")
+            ok = _cclose(vals[0], fwd, 1e-11) and (arg is not grid or (len(vals) == 3 and _cclose(vals[1], fwd, 1e-11)
+                                                                        and _cclose(vals[2], 1.0, 1e-11)))
+            if not ok or (arg is grid and grid.tolist() != [-1j, -1j, 0j]):
+                sh.violation(
+                    f"C10:martingale-cf:{cname}.log_characteristic_function:not-the-forward-at-minus-i:{kl}:{form}",
+                    f"{A.model_label(spec)}: log_characteristic_function({t}, .) with -i handed over as {form} = {vals}, forward = "
+                    f"{fwd!r}; the caller's grid holds {grid.tolist()}", {"t": t, "lib": vals, "forward": fwd})
+                grid = np.array([-1j, -1j, 0j])
+                break
     # the same under the exact jump law: omega must be -psi(-i) of the declared triplet
     rtol = _rtol(fv)
     psi1, err = _psi_ref(a, sigma, nu, rep, fv, -1j)
@@ -1192,6 +1628,10 @@ def _sub_mart_direct(sh, case):
         sh.cls("direct-after-representation-history:" + ">".join(pre))
     times = np.array([0.0, 1.0, 2.5])
     path = np.array([_re(v) for v in np.asarray(proc.deterministic_path(times)).reshape(-1)])
+    if times.tolist() != [0.0, 1.0, 2.5]:
+        sh.violation(f"C10:martingale-direct:LevyProcess.deterministic_path:modifies-its-argument:{kl}",
+                     f"{A.model_label(spec)}: the caller's array of dates [0.0, 1.0, 2.5] holds {times.tolist()} after the call", None)
+        times = np.array([0.0, 1.0, 2.5])
     x0 = _re(model.x0_value())
     pd = _re(proc.process_drift())
     if math.isnan(pd) or math.isnan(x0):
@@ -1494,6 +1934,26 @@ def _sub_route(sh, case):
     cname = type(model).__name__
     sh.cls("family:" + spec["family"] + (":exp" if spec.get("exp") else ""))
     got, ref = _observables(spec, model), _observables(spec, direct)
+    if case.get("chain"):
+        # ... and the drift of the Markov-chain approximation built on the model (fixed 5-point grid), and of the direct simulation
+        from rpylib.distribution.sampling import SamplingMethod
+        from rpylib.process.levyprocess import LevyProcess
+        from rpylib.process.markovchain.markovchain import MarkovChainProcess
+
+        for obs_, m in ((got, model), (ref, direct)):
+            try:
+                mcp = MarkovChainProcess(model=m, method=SamplingMethod.INVERSION, grid=A.make_grid({"kind": "fixed", "h": 0.1, "n": 5}, m))
+                mcp.initialisation(_fake_product())
+                obs_["MarkovChainProcess.process_drift()"] = complex(mcp.process_drift())
+                obs_["MarkovChainProcess.deterministic_path(1.5)"] = complex(np.asarray(mcp.deterministic_path(np.array([1.5]))).reshape(-1)[0])
+            except Exception:
+                obs_["MarkovChainProcess.process_drift()"] = None
+            if spec["family"] in ("hem", "merton"):
+                try:
+                    obs_["LevyProcess.deterministic_path(1.5)"] = complex(
+                        np.asarray(LevyProcess(m).deterministic_path(np.array([1.5]))).reshape(-1)[0])
+                except Exception:
+                    obs_["LevyProcess.deterministic_path(1.5)"] = None
     if type(model) is not type(direct):
         sh.violation(f"C10:route:{cname}:another-class-than-the-directly-constructed-model:{kl}", f"{type(direct).__name__}", None)
     bad = []
@@ -1605,6 +2065,13 @@ def _sub_path_history(sh, case):
                 sh.violation(key, f"deterministic_path({times}) after {prev} raised {e!r}", None)
             return
         sh.count("evaluations")
+        if arr.tolist() != [float(t) for t in times]:
+            key = f"C10:{sub}:{comp}:modifies-its-argument:{kl}"
+            if key not in seen:
+                seen.add(key)
+                sh.violation(key, f"{A.model_label(spec)}: deterministic_path was handed the dates {times} in an array that holds "
+                                  f"{arr.tolist()} after the call", None)
+            arr = np.array(times, dtype=float)
         ref = x0_ + pd_ * arr
         ok = got.shape == arr.shape and all(
             core.close(_re(g), r, rtol=1e-14, atol=1e-15, scale=max(1.0, abs(x0_))) for g, r in zip(got.reshape(-1), ref))
@@ -1655,6 +2122,40 @@ def _sub_path_history(sh, case):
                                  f"deterministic_path = {got.tolist()}, expected {ref.tolist()}", None)
         except Exception as e:
             sh.violation(f"C10:{sub}:{comp}:raises-{type(e).__name__}:{kl}:buffer", repr(e), None)
+    # 4. the dates handed over in their other forms (integer dates, (1,n) / (n,1), strided view, read-only, 0-d, numpy / Python
+    # scalars, keyword; one array beyond 2^16 dates), the caller's array left alone, kept arrays asked again, arrays overwritten
+    # by the caller afterwards: x0 + process_drift * t is judged by the scalar calls (themselves compared just below)
+    where = A.model_label(spec)
+    for t in (0.0, 0.3, 1.0, 2.0):
+        for form, arg in [("python-float", t), ("numpy-scalar", np.float64(t))] + ([("python-int", int(t))] if float(t).is_integer() else []):
+            try:
+                got = _re(proc.deterministic_path(arg))
+                sh.count("evaluations")
+                if not core.close(got, x0 + pd * t, rtol=1e-14, atol=1e-15, scale=max(1.0, abs(x0))):
+                    sh.violation(f"C10:{sub}:{comp}:not-x0-plus-drift-times-t:{kl}:{form}",
+                                 f"{where}: deterministic_path({arg!r}) = {got!r}, x0 + process_drift * t = {x0 + pd * t!r}", None)
+            except Exception as e:
+                sh.violation(f"C10:{sub}:{comp}:raises-{type(e).__name__}:{kl}:{form}", f"deterministic_path({arg!r}) raised {e!r}", None)
+    large = LARGE_N[case.get("large")] if case.get("large") else 0
+    for kind, vals in (("real", [0.0, 0.25, 0.5, 1.0, _T]), ("real", [0.3, 0.3, 0.9]), ("int", [0.0, 1.0, 2.0, 5.0])):
+        tv = [complex(v) for v in vals]
+        _contract(sh, sub, comp, kl, "deterministic_path(.)", proc.deterministic_path, tv, kind, where, large=large)
+        _contract(sh, sub, comp, kl + ":keyword", "deterministic_path(times=.)", lambda t: proc.deterministic_path(times=t), tv, kind, where)
+    # 5. copies of the process object (deepcopy: what Coupling*.next_level and the path managers keep; dill: what every pool chunk
+    # of the engines receives; copy.copy) answer like the original, and the original like before
+    import dill
+
+    for how, make in (("deepcopy", copy.deepcopy), ("copy", copy.copy), ("dill", lambda o: dill.loads(dill.dumps(o)))):
+        try:
+            clone = make(proc)
+        except Exception as e:
+            sh.violation(f"C10:{sub}:{type(proc).__name__}:raises-{type(e).__name__}:{kl}:{how}", f"{how} of the process raised {e!r}", None)
+            continue
+        sh.cls("process-copy:" + how)
+        for li, gi in (grids[1], grids[6], grids[8]):
+            ask(clone, x0, pd, li, gi, f"differs-on-a-{how}-of-the-process", f"{how} of the process under test")
+            ask(other, x0o, pdo, li, gi, "depends-on-a-request-to-another-process-object", f"a {how} of the object under test was asked")
+            ask(proc, x0, pd, li, gi, f"differs-after-a-{how}-of-the-process-was-used", f"a {how} of it was asked for {li}")
     # the drift and the start value have not moved
     if not (core.close(_re(proc.process_drift()), pd, rtol=1e-15) and core.close(_re(proc.model.x0_value()), x0, rtol=1e-15)):
         sh.violation(f"C10:{sub}:{type(proc).__name__}.process_drift:changed-by-deterministic_path-requests:{kl}",
@@ -1716,6 +2217,13 @@ def _sub_coupling_levels(sh, case):
                 arr = np.array(times, dtype=float)
                 got = np.asarray(pm.deterministic_path(arr))
                 sh.count("evaluations")
+                if arr.tolist() != [float(t) for t in times]:
+                    key = f"C10:martingale-chain:CouplingMarkovChain.next_level:deterministic-path-modifies-its-argument:{kl}"
+                    if key not in reported:
+                        reported.add(key)
+                        sh.violation(key, f"{A.model_label(spec)}, after {step}: the path manager of level {k} was handed the dates "
+                                          f"{times} in an array that holds {arr.tolist()} after the call", None)
+                    arr = np.array(times, dtype=float)
                 ref = np.array([x0 + b * arr for b in want]) if k else x0 + want[0] * arr
                 ok = got.shape == ref.shape and all(
                     core.close(_re(g), r, rtol=1e-12, atol=1e-14, scale=max(1.0, abs(x0)))
